@@ -42,7 +42,10 @@ def readNameBody : Nat → Nat → Bytes → Except Err (Bytes × Bytes)
   | 0, _, inp => .ok ([], inp)
   | _+1, _, [] => .ok ([], [])
   | fuel+1, len, c :: rest =>
-    if len ≥ Gen.scanner_maxNameBytes then .error .malformed
+    -- the byte that terminates the name is classified first: the limit applies to the bytes of
+    -- the name, not to the terminator
+    if c != 35 && !isRegular c then .ok ([], c :: rest)
+    else if len ≥ Gen.scanner_maxNameBytes then .error .malformed
     else if c == 35 then
       match rest with
       | h :: l :: rest' =>
@@ -50,7 +53,6 @@ def readNameBody : Nat → Nat → Bytes → Except Err (Bytes × Bytes)
         | some a, some b => consRes (a * 16 + b) (readNameBody fuel (len + 1) rest')
         | _, _ => consRes 35 (readNameBody fuel (len + 1) rest)
       | _ => consRes 35 (readNameBody fuel (len + 1) rest)
-    else if !isRegular c then .ok ([], c :: rest)
     else consRes c (readNameBody fuel (len + 1) rest)
 
 /-- `ReadName`: `SkipString("/")` then the body -/
@@ -122,7 +124,9 @@ def readOctTail (oct : Nat) : Nat → Bytes → Nat × Bytes
 def readStringBody : Nat → (level : Nat) → (ignoreLF : Bool) → (len : Nat) → Bytes → Except Err (Bytes × Bytes)
   | 0, _, _, _, _ => .error .other
   | fuel+1, level, ignoreLF, len, inp =>
-    if len ≥ Gen.scanner_maxStringBytes then .error .malformed else
+    -- a string of exactly maxStringBytes bytes is allowed: the limit is only exceeded once a
+    -- further byte has been added
+    if len > Gen.scanner_maxStringBytes then .error .malformed else
     match inp with
     | [] => .error .eof
     | b :: rest =>
@@ -158,7 +162,9 @@ def readHexBody : (pending : Option Nat) → (len : Nat) → Bytes → Except Er
   | pending, len, c :: cs =>
     if c == 62 then
       match pending with
-      | some h => .ok ([16 * h], cs)
+      | some h =>
+        -- the final unpaired digit is subject to the cap as well
+        if len ≥ Gen.scanner_maxStringBytes then .error .malformed else .ok ([16 * h], cs)
       | none => .ok ([], cs)
     else match hexVal c with
       | none => readHexBody pending len cs
@@ -229,7 +235,9 @@ def readArrayLoop : Nat → Nat → List Obj → Nat → Bytes → Except Err (L
     | (_, true) => .error .eof
     | ([], false) => .error .eof
     | (c :: rest, false) =>
-      if c == 93 then .ok (acc.reverse, rest)
+      if c == 93 then
+        -- the limit itself is enforced when the closing bracket is reached
+        if acc.length > Gen.scanner_maxArrayLen then .error .malformed else .ok (acc.reverse, rest)
       else if ints ≥ 2 && c == 82 then
         match acc with
         | .int b :: .int a :: acc' =>
@@ -241,7 +249,9 @@ def readArrayLoop : Nat → Nat → List Obj → Nat → Bytes → Except Err (L
         | .error e => .error e
         | .ok (o, r) =>
           let ints' := match o with | .int _ => ints + 1 | _ => 0
-          if acc.length ≥ Gen.scanner_maxArrayLen then .error .malformed
+          -- a trailing `a b R` temporarily occupies two elements: one more than the limit is
+          -- allowed here
+          if acc.length > Gen.scanner_maxArrayLen then .error .malformed
           else readArrayLoop fuel depth (o :: acc) ints' r
 /-- `ReadDict` at `<<` -/
 def readDict : Nat → Nat → Bytes → Except Err (List (Bytes × Obj) × Bytes)
@@ -292,8 +302,9 @@ def readDictLoop : Nat → Nat → List (Bytes × Obj) → Bytes → Except Err 
             | _, _ => cont val r
 end
 
-/-- fuel that always suffices: every recursive call consumes input or closes a level -/
-def scanFuel (inp : Bytes) : Nat := 2 * inp.length + 8
+/-- fuel that always suffices: one level of nesting costs three calls
+    (`readObject → readArray → readArrayLoop → readObject`) and at least one input byte -/
+def scanFuel (inp : Bytes) : Nat := 3 * inp.length + 8
 
 /-- parse one object at the start of `inp` (what `ReadObject` on a fresh scanner does) -/
 def parseObject (inp : Bytes) : Except Err (Obj × Bytes) := readObject (scanFuel inp) 0 inp
